@@ -238,146 +238,152 @@ pub fn error2<E: ToString>(err: E, span: Span) -> ParserError {
 impl Iterator for Tokenizer<'_> {
     type Item = Result<(usize, Token, usize), LexicalError>;
     fn next(&mut self) -> Option<Self::Item> {
-        let token = self.lex.next()?;
-        let span = self.lex.span();
-        match token {
-            Err(_) => {
-                let err = format!("Unknown token {}", self.lex.slice());
-                Some(Err(LexicalError::new(err, span)))
-            }
-            Ok(Token::LineComment) => {
-                if self.trivia.is_some() && !self.is_inline_comment(span.start) {
-                    if self.has_blank_line_before_token(span.start) {
-                        self.comment_buffer.clear();
-                    }
-                    self.comment_buffer.push(parse_doc_comment(&self.lex));
-                    self.last_comment_end = Some(span.end);
+        // Comments are skipped by looping: one call per comment would use stack space
+        // proportional to the number of consecutive comments in the input.
+        loop {
+            let token = self.lex.next()?;
+            let span = self.lex.span();
+            return match token {
+                Err(_) => {
+                    let err = format!("Unknown token {}", self.lex.slice());
+                    Some(Err(LexicalError::new(err, span)))
                 }
-                self.next()
-            }
-            Ok(Token::StartComment) => {
-                let mut lex = self.lex.to_owned().morph::<Comment>();
-                let mut nesting = 1;
-                loop {
-                    match lex.next() {
-                        Some(Err(_)) => continue,
-                        Some(Ok(Comment::End)) => {
-                            nesting -= 1;
-                            if nesting == 0 {
-                                break;
+                Ok(Token::LineComment) => {
+                    if self.trivia.is_some() && !self.is_inline_comment(span.start) {
+                        if self.has_blank_line_before_token(span.start) {
+                            self.comment_buffer.clear();
+                        }
+                        self.comment_buffer.push(parse_doc_comment(&self.lex));
+                        self.last_comment_end = Some(span.end);
+                    }
+                    continue;
+                }
+                Ok(Token::StartComment) => {
+                    let mut lex = self.lex.to_owned().morph::<Comment>();
+                    let mut nesting = 1;
+                    loop {
+                        match lex.next() {
+                            Some(Err(_)) => continue,
+                            Some(Ok(Comment::End)) => {
+                                nesting -= 1;
+                                if nesting == 0 {
+                                    break;
+                                }
+                            }
+                            Some(Ok(Comment::Start)) => nesting += 1,
+                            None => {
+                                return Some(Err(LexicalError::new(
+                                    "Unclosed comment",
+                                    span.start..lex.span().end,
+                                )))
                             }
                         }
-                        Some(Ok(Comment::Start)) => nesting += 1,
-                        None => {
-                            return Some(Err(LexicalError::new(
-                                "Unclosed comment",
-                                span.start..lex.span().end,
-                            )))
-                        }
                     }
+                    self.lex = lex.morph::<Token>();
+                    if self.trivia.is_some() {
+                        // Update last_comment_end to skip over the block comment.
+                        // This prevents block comments from breaking doc comment continuity.
+                        self.last_comment_end = Some(self.lex.span().start);
+                    }
+                    continue;
                 }
-                self.lex = lex.morph::<Token>();
-                if self.trivia.is_some() {
-                    // Update last_comment_end to skip over the block comment.
-                    // This prevents block comments from breaking doc comment continuity.
-                    self.last_comment_end = Some(self.lex.span().start);
-                }
-                self.next()
-            }
-            Ok(Token::StartString) => {
-                let mut result = String::new();
-                let mut lex = self.lex.to_owned().morph::<Text>();
-                loop {
-                    use self::Text::*;
-                    match lex.next() {
-                        Some(Ok(Text)) => result += lex.slice(),
-                        Some(Ok(EscapeCharacter)) => match lex.slice().chars().nth(1).unwrap() {
-                            'n' => result.push('\n'),
-                            'r' => result.push('\r'),
-                            't' => result.push('\t'),
-                            '\\' => result.push('\\'),
-                            '"' => result.push('"'),
-                            '\'' => result.push('\''),
-                            c => {
+                Ok(Token::StartString) => {
+                    let mut result = String::new();
+                    let mut lex = self.lex.to_owned().morph::<Text>();
+                    loop {
+                        use self::Text::*;
+                        match lex.next() {
+                            Some(Ok(Text)) => result += lex.slice(),
+                            Some(Ok(EscapeCharacter)) => {
+                                match lex.slice().chars().nth(1).unwrap() {
+                                    'n' => result.push('\n'),
+                                    'r' => result.push('\r'),
+                                    't' => result.push('\t'),
+                                    '\\' => result.push('\\'),
+                                    '"' => result.push('"'),
+                                    '\'' => result.push('\''),
+                                    c => {
+                                        return Some(Err(LexicalError::new(
+                                            format!("Unknown escape character {c}"),
+                                            lex.span(),
+                                        )))
+                                    }
+                                }
+                            }
+                            Some(Ok(Codepoint)) => {
+                                let slice = lex.slice();
+                                let hex = slice[3..slice.len() - 1].replace('_', "");
+                                match u32::from_str_radix(&hex, 16)
+                                    .map_err(|_| {
+                                        LexicalError::new("Not a valid hex escape", lex.span())
+                                    })
+                                    .and_then(|c| {
+                                        std::char::from_u32(c).ok_or_else(|| {
+                                            LexicalError::new(
+                                                format!("Unicode escape out of range {hex}"),
+                                                lex.span(),
+                                            )
+                                        })
+                                    }) {
+                                    Ok(c) => result.push(c),
+                                    Err(e) => return Some(Err(e)),
+                                }
+                            }
+                            Some(Ok(Byte)) => {
+                                let hex = &lex.slice()[1..];
+                                match u8::from_str_radix(hex, 16) {
+                                    Ok(byte) => {
+                                        // According to https://webassembly.github.io/spec/core/text/values.html#strings
+                                        // \xx escape can break utf8 unicode.
+                                        let bytes = unsafe { result.as_mut_vec() };
+                                        bytes.push(byte);
+                                    }
+                                    Err(_) => {
+                                        return Some(Err(LexicalError::new(
+                                            "Not a valid hex escape",
+                                            lex.span(),
+                                        )))
+                                    }
+                                }
+                            }
+                            Some(Ok(EndString)) => break,
+                            Some(Err(_)) => {
                                 return Some(Err(LexicalError::new(
-                                    format!("Unknown escape character {c}"),
+                                    format!("Unexpected string {}", lex.slice()),
                                     lex.span(),
                                 )))
                             }
-                        },
-                        Some(Ok(Codepoint)) => {
-                            let slice = lex.slice();
-                            let hex = slice[3..slice.len() - 1].replace('_', "");
-                            match u32::from_str_radix(&hex, 16)
-                                .map_err(|_| {
-                                    LexicalError::new("Not a valid hex escape", lex.span())
-                                })
-                                .and_then(|c| {
-                                    std::char::from_u32(c).ok_or_else(|| {
-                                        LexicalError::new(
-                                            format!("Unicode escape out of range {hex}"),
-                                            lex.span(),
-                                        )
-                                    })
-                                }) {
-                                Ok(c) => result.push(c),
-                                Err(e) => return Some(Err(e)),
+                            None => {
+                                return Some(Err(LexicalError::new(
+                                    "Unclosed string",
+                                    span.start..lex.span().end,
+                                )))
                             }
-                        }
-                        Some(Ok(Byte)) => {
-                            let hex = &lex.slice()[1..];
-                            match u8::from_str_radix(hex, 16) {
-                                Ok(byte) => {
-                                    // According to https://webassembly.github.io/spec/core/text/values.html#strings
-                                    // \xx escape can break utf8 unicode.
-                                    let bytes = unsafe { result.as_mut_vec() };
-                                    bytes.push(byte);
-                                }
-                                Err(_) => {
-                                    return Some(Err(LexicalError::new(
-                                        "Not a valid hex escape",
-                                        lex.span(),
-                                    )))
-                                }
-                            }
-                        }
-                        Some(Ok(EndString)) => break,
-                        Some(Err(_)) => {
-                            return Some(Err(LexicalError::new(
-                                format!("Unexpected string {}", lex.slice()),
-                                lex.span(),
-                            )))
-                        }
-                        None => {
-                            return Some(Err(LexicalError::new(
-                                "Unclosed string",
-                                span.start..lex.span().end,
-                            )))
                         }
                     }
+                    self.lex = lex.morph::<Token>();
+                    Some(Ok((span.start, Token::Text(result), self.lex.span().end)))
                 }
-                self.lex = lex.morph::<Token>();
-                Some(Ok((span.start, Token::Text(result), self.lex.span().end)))
-            }
-            Ok(token) => {
-                if self.trivia.is_some() {
-                    let has_blank_line = self.has_blank_line_before_token(span.start);
-                    if let Some(trivia) = &mut self.trivia {
-                        if !self.comment_buffer.is_empty() {
-                            if !has_blank_line {
-                                let content: Vec<String> = mem::take(&mut self.comment_buffer);
-                                trivia.borrow_mut().insert(span.start, content);
-                            } else {
-                                self.comment_buffer.clear();
+                Ok(token) => {
+                    if self.trivia.is_some() {
+                        let has_blank_line = self.has_blank_line_before_token(span.start);
+                        if let Some(trivia) = &mut self.trivia {
+                            if !self.comment_buffer.is_empty() {
+                                if !has_blank_line {
+                                    let content: Vec<String> = mem::take(&mut self.comment_buffer);
+                                    trivia.borrow_mut().insert(span.start, content);
+                                } else {
+                                    self.comment_buffer.clear();
+                                }
                             }
+                            self.last_comment_end = None;
+                            self.last_token_line_end = Some(self.find_line_end(span.end));
                         }
-                        self.last_comment_end = None;
-                        self.last_token_line_end = Some(self.find_line_end(span.end));
                     }
-                }
 
-                Some(Ok((span.start, token, span.end)))
-            }
+                    Some(Ok((span.start, token, span.end)))
+                }
+            };
         }
     }
 }
